@@ -71,6 +71,7 @@ def build_state(params, B, concrete=None):
     hs = []
     r = params.get('range', 'none')
     if r == 'open': hs.append(header('Range', 'bytes=0-'))
+    elif r == 'multi': hs.append(header('Range', 'bytes=0-0,1-1'))
     elif r == 'sym':
         rv = S(concrete['range']) if concrete is not None else SymStr.fresh('rng', B.get('range_cap', 6), cons, alphabet=printable)
         sy['range'] = rv; hs.append(header('Range', rv))
